@@ -2702,10 +2702,16 @@ impl LineBuf {
 				} else {
 					self.end_of_line()
 				};
-				if self.grapheme_at(pos) == Some("\n") {
+				// end_of_line() is exclusive and counts the terminator: step back onto it
+				let mut pos = pos;
+				if pos > 0 && self.grapheme_at(pos - 1) == Some("\n") {
+					pos -= 1;
+				}
+				let appending = matches!(verb, Some(Verb::InsertMode));
+				if !appending && self.grapheme_at(pos) == Some("\n") && pos > 0 && self.grapheme_at(pos - 1) != Some("\n") {
 					// If we are at the end of the line, we want to go back one
 					// So we don't land on the newline
-					MotionKind::On(pos.saturating_sub(1))
+					MotionKind::On(pos - 1)
 				} else {
 					MotionKind::On(pos)
 				}
